@@ -69,6 +69,25 @@ def setup(ctx):
                               "." not in p.split("/") and ".." not in p.split("/")]
 
 
+def star_slash(pattern):
+    """An unescaped run of asterisks directly followed by '/' (escapes walked properly: in `\\\\*/` the asterisk is not escaped)."""
+    i = 0
+    while i < len(pattern):
+        if pattern[i] == "\\":
+            i += 2
+            continue
+        if pattern[i] == "*":
+            j = i
+            while j < len(pattern) and pattern[j] == "*":
+                j += 1
+            if j < len(pattern) and pattern[j] == "/":
+                return True
+            i = j
+            continue
+        i += 1
+    return False
+
+
 def classify(pattern, path, ref_got=None):
     # a '?' that is not escaped
     i = 0
@@ -85,9 +104,7 @@ def classify(pattern, path, ref_got=None):
         i += 1
     if has_q:
         return "dep5-question-mark-not-expressible"
-    import re as _re
-
-    if _re.search(r"(?<!\\)\*+/", pattern) and ref_got == (False, True):
+    if star_slash(pattern) and ref_got == (False, True):
         return "dep5-asterisk-slash-becomes-globstar-slash-matching-zero-directories"
     if esc_star:
         return "escaped-asterisk-converted"
@@ -153,7 +170,7 @@ PATTERNS = ["*", "src/*", "*.txt", "docs/*.md", "src/sub/*", "a?.txt", "st\\*r.t
 
 import re as _re0
 
-CLEAN_PATTERNS = [p for p in PATTERNS if "?" not in p.replace("\\?", "") and not _re0.search(r"(?<!\\)\*+/", p)]
+CLEAN_PATTERNS = [p for p in PATTERNS if "?" not in p.replace("\\?", "") and not star_slash(p)]
 
 
 def make_dep5(rng, clean=False):
@@ -247,7 +264,7 @@ def run_tree(case, ctx, res):
                 pass  # no pattern outside the expressible language: any difference is a violation
             elif diffs and pats_q:
                 key = "dep5-question-mark-not-expressible"
-            elif diffs and _re.search(r"(?<!\\)\*+/", text.split("Files:", 1)[1]) and all(
+            elif diffs and any(star_slash(w) for ln in text.splitlines() if ln.startswith(("Files:", " ")) for w in ln.replace("Files:", "").split()) and all(
                     len(after[0].get(p, ([], []))[0]) >= len(before[0].get(p, ([], []))[0]) for p in diffs):
                 key = "dep5-asterisk-slash-becomes-globstar-slash-matching-zero-directories"
             elif diffs and "\\*" in text:
